@@ -340,7 +340,7 @@ def run(ctx):
         if ctx.mine(ci):
             ex_single(ctx, z, seed=ctx.seed)
             ctx.sample({"ctor": "from_single_resolution", "zoom": z, "cells": 4 ** z})
-    n = 3000 if thorough else 120
+    n = 24000 if thorough else 120
     for j in range(n):
         ci += 1
         if not ctx.mine(ci):
@@ -352,7 +352,7 @@ def run(ctx):
         ex_catalog(ctx, kind, thr, zoom, seed=int(r.integers(0, 10 ** 9)))
         if j % 30 == 0:
             ctx.sample({"ctor": "from_catalog", "kind": kind, "threshold": thr, "max_zoom": zoom})
-    for j in range(1500 if thorough else 60):
+    for j in range(12000 if thorough else 60):
         ci += 1
         if not ctx.mine(ci):
             continue
